@@ -158,6 +158,13 @@ def gen_cases(rng, tier):
             M = rng.choice([2, 4, 16])
             kb = M.bit_length() - 1
             cases.append(dict(base, kind="ppm", bits=[rng.randint(0, 1) for _ in range(48 * kb)], M=M, decision=dec))
+    # long 16-PPM records with Gaussian pulses and a wide detector (BW = 1.5 R): thousands of OFF slots, a few of them between two
+    # ON slots across a symbol boundary — a hard-decision threshold that sits too close to the OFF level only fails on those
+    for sps in (4, 8, 16):
+        bits = [rng.randint(0, 1) for _ in range(4 * (1500 if tier == "quick" else 3000))]
+        cases.append({"kind": "ppm", "bits": bits, "M": 16, "decision": "hard", "sps": sps, "R": 1e9, "shape": "gaussian", "Vpi": 5.0,
+                      "loss_dB": 2.0, "ER_dB": 13.0, "P": 1e-3, "npol": 1, "pol": "x", "r": 1.0, "Rl": 50.0, "bw": 1.5,
+                      "seed": rng.getrandbits(31)})
     # several links in ONE process with the same PD bandwidth while the sampling rate goes down (a stale filter design or
     # any other state carried from one simulation to the next shows up here)
     for _ in range(2 if tier == "quick" else 8):
